@@ -117,6 +117,6 @@ Example C08_nonvacuous :
     = [(RP 0, [PKey (AStr [1%N]); PAttr 1%N])] /\
   count_occ ref_eq_dec (map fst (snd (iter_memo ex_env ex_heap false fuel [] ex_root []))) (RP 1) = 2 /\
   count_occ ref_eq_dec (map fst (snd (iter_memo ex_env ex_heap true fuel [] ex_root []))) (RP 1) = 1 /\
-  length (snd (iter_memo ex_env ex_heap false fuel [] ex_root [])) = 11.
+  length (snd (iter_memo ex_env ex_heap false fuel [] ex_root [])) = 13.
 Proof. exact iterate_nonvacuous. Qed.
 Print Assumptions C08_nonvacuous.
